@@ -427,6 +427,10 @@ class UpdateCollection(Message):
                 return
 
             yield self._message(UpdateCollection.prefix(withdraws) + UpdateCollection.prefix(attr) + announced)
+            if packed_size > msg_size:
+                # the NLRI which starts the next message must fit on its own too
+                log.critical(lazymsg('update.pack.error reason=attributes_too_large'), 'parser')
+                return
             announced = bytes(packed)
             announced_size = packed_size
             withdraws = b''
@@ -450,6 +454,10 @@ class UpdateCollection(Message):
                     yield self._message(UpdateCollection.prefix(withdraws) + UpdateCollection.prefix(attr) + announced)
                 else:
                     yield self._message(UpdateCollection.prefix(withdraws) + UpdateCollection.prefix(b'') + announced)
+                if packed_size > msg_size:
+                    # the NLRI which starts the next message must fit on its own too
+                    log.critical(lazymsg('update.pack.error reason=attributes_too_large'), 'parser')
+                    return
                 withdraws = bytes(packed)
                 withdraws_size = packed_size
                 announced = b''
@@ -460,6 +468,9 @@ class UpdateCollection(Message):
                 yield self._message(UpdateCollection.prefix(withdraws) + UpdateCollection.prefix(attr) + announced)
             else:
                 yield self._message(UpdateCollection.prefix(withdraws) + UpdateCollection.prefix(b'') + announced)
+            # what was just sent must not be sent again with, nor be charged to, the first MP message
+            withdraws = b''
+            announced = b''
 
         # Get all families that have MP announces or withdraws
         all_mp_families = set(mp_announces.keys()) | set(mp_withdraws.keys())
@@ -487,11 +498,13 @@ class UpdateCollection(Message):
                 mp_reach = mprnlri
 
             if include_withdraw:
+                # fragments are cut for a message of their own; the pending MP_REACH_NLRI shares
+                # the message of the first one only when both fit, otherwise it is sent first
                 for mpurnlri in mp_withdraw.packed_unreach_attributes(
                     negotiated,
-                    msg_size - len(withdraws + announced + mp_reach),
+                    msg_size - len(withdraws + announced),
                 ):
-                    if mp_unreach:
+                    if mp_unreach or (mp_reach and len(mp_reach) + len(mpurnlri) > msg_size):
                         yield self._message(
                             UpdateCollection.prefix(withdraws)
                             + UpdateCollection.prefix(mp_unreach + attr + mp_reach)
@@ -502,9 +515,12 @@ class UpdateCollection(Message):
                         withdraws = b''
                     mp_unreach = mpurnlri
 
-            yield self._message(
-                UpdateCollection.prefix(withdraws) + UpdateCollection.prefix(mp_unreach + attr + mp_reach) + announced,
-            )  # yield mpr/mpur per family
+            if mp_reach or mp_unreach:
+                yield self._message(
+                    UpdateCollection.prefix(withdraws)
+                    + UpdateCollection.prefix(mp_unreach + attr + mp_reach)
+                    + announced,
+                )  # yield mpr/mpur per family
             withdraws = b''
             announced = b''
 
